@@ -47,6 +47,8 @@ type c07Case struct {
 	CLI      bool    `json:"cli"` // run the same steps through the built CLI and compare the files byte for byte
 	Chain    bool    `json:"chain"`
 	BadExt   string  `json:"bad_ext,omitempty"` // error case: unsupported extension
+	// PreExisting: the destination file already exists and holds (longer) unrelated content
+	PreExisting bool `json:"pre_existing,omitempty"`
 }
 
 func init() { register("c07", checkC07) }
@@ -314,6 +316,10 @@ func checkC07(c c07Case) string {
 		dscTeletext = src.Metadata.STLDisplayStandardCode != "0"
 	}
 	dstPath := filepath.Join(dir, "dst."+c.DstExt)
+	stale := bytes.Repeat([]byte("9\n99:59:59,000 --> 99:59:59,999\nstale content of an older file\n\n"), 400)
+	if c.PreExisting {
+		_ = os.WriteFile(dstPath, stale, 0o644)
+	}
 
 	if c.Chain {
 		// every step goes through a file of the destination format, by the library and by the CLI: same bytes
@@ -402,6 +408,9 @@ func checkC07(c c07Case) string {
 			}
 		}
 		cliOut := filepath.Join(dir, "cli."+c.DstExt)
+		if c.PreExisting {
+			_ = os.WriteFile(cliOut, stale, 0o644)
+		}
 		full := append([]string{cmd, "-i", srcPath}, args...)
 		if cmd == "merge" {
 			full = append(full, "-i", otherPath)
@@ -639,6 +648,7 @@ func TestC07(t *testing.T) {
 		}
 		c.Ops = genC07Ops(rt, maxEnd, withMerge)
 		c.CLI = rapid.IntRange(0, 4).Draw(rt, "cli") == 0
+		c.PreExisting = rapid.IntRange(0, 3).Draw(rt, "preexisting") == 0
 		c.Chain = c.CLI && len(c.Ops) >= 2 && rapid.Bool().Draw(rt, "chain")
 		if !seenPairs[c.Src+">"+c.Dst] {
 			seenPairs[c.Src+">"+c.Dst] = true
